@@ -21,7 +21,7 @@ RULE = (
 ASSUMPTIONS = ["dyadic cell bounds are exact in float64 (depth <= 6)",
                "VOGP_AD cannot run on a 1-D domain (known finding K2, reported under C06); d=1 run-level invariants are not observed"]
 N = {"quick": 32, "thorough": 900}
-REQUIRE = {"quick": {"direct_refines": 300, "max_depth_refusals": 100, "run_steps": 150, "run_refines": 40, "runs_terminated": 10,
+REQUIRE = {"quick": {"direct_refines": 300, "max_depth_refusals": 100, "run_steps": 120, "run_refines": 40, "runs_terminated": 10,
                      "pareto_declared_nodes": 5, "dims_1": 30, "dims_3": 30}}
 TIMEOUT = {"quick": 1500, "thorough": 7200}
 
@@ -292,4 +292,5 @@ def shard(mon, tier, rng, shard_no, nshards):
     for it in range(n):
         for _ in range(8):
             direct_sequence(mon, rng)
+        vogp_ad_run(mon, rng, tier)
         vogp_ad_run(mon, rng, tier)
